@@ -9,4 +9,5 @@ import SwcVerif.Model.AlgoRunRedirect
 import SwcVerif.Model.AlgoRunAssemble
 import SwcVerif.Model.AlgoRunLMeasure
 import SwcVerif.Model.AlgoRunNodeBranch
+import SwcVerif.Model.AlgoRunMst
 /-! all runners of generated definitions (imported by the root module only; the driver imports them one by one) -/
